@@ -37,9 +37,23 @@ def classify_exception(e):
     return 'exception', f'{type(e).__name__} at {where}: {str(e)[:160]}'
 
 
+def _limit_memory():
+    '''A job must not take the machine down when the library under test allocates without bound (an endless loop inside
+    one event): cap the address space of the worker; the MemoryError then surfaces inside the library code.'''
+    try:
+        import resource
+        cap = int(os.environ.get('VERIF_MEM_GB', '6')) * (1 << 30)
+        soft, hard = resource.getrlimit(resource.RLIMIT_AS)
+        if soft == resource.RLIM_INFINITY or soft > cap:
+            resource.setrlimit(resource.RLIMIT_AS, (cap, hard))
+    except Exception:
+        pass
+
+
 def _worker(args):
     job, seed = args
     sys.stdout = open(os.devnull, 'w')
+    _limit_memory()
     t0 = time.time()
     try:
         out = KINDS[job['kind']][0](job, seed)
